@@ -22,6 +22,7 @@ fn gen_opts(prop: &str, rng: &mut Rng, thorough: bool) -> GenOpts {
     o.max_steps = if thorough { 14 } else { 10 };
     match prop {
         "C04" => {
+            o.effects = true;
             o.wide = true;
             o.max_steps = if thorough { 24 } else { 14 };
             o.min_steps = 4;
@@ -150,6 +151,11 @@ fn one_case(ctx: &Ctx, dir: &std::path::Path, case: u64, seed: u64, rep: &mut Re
     if matches!(prop, "C06" | "C19" | "C01" | "C18") && rng.chance(1, 5) {
         add_regen(&mut proj, &mut rng);
     }
+    let mut c04_regen = false;
+    if prop == "C04" && !proj.pools.is_empty() && rng.chance(1, 5) {
+        add_regen(&mut proj, &mut rng);
+        c04_regen = true;
+    }
     if prop == "C06" && rng.chance(1, 3) {
         let validation = rng.chance(1, 2);
         cfg.cyclic = inject_cycle(&mut proj, &mut rng, validation);
@@ -165,10 +171,16 @@ fn one_case(ctx: &Ctx, dir: &std::path::Path, case: u64, seed: u64, rep: &mut Re
     }
     clear_dir(dir);
     let mut world = World::new(dir.to_path_buf(), proj);
-    // generator reproduces the same project
+    // generator reproduces the same project (for C04: with other pool depths)
     if world.proj.steps.iter().any(|s| s.effect == Effect::Generator) {
         for _ in 0..4 {
-            world.next_gens.push(world.proj.clone());
+            let mut np = world.proj.clone();
+            if c04_regen {
+                for p in np.pools.iter_mut() {
+                    p.1 = rng.below(4);
+                }
+            }
+            world.next_gens.push(np);
         }
     }
     world.init_sources(&mut rng);
@@ -478,12 +490,15 @@ fn judge(
         "C04" => {
             if let Some(sid) = &cfg.undeclared_pool {
                 let si = proj.step_index(sid).unwrap();
-                let needs_run = pred.p1.run.contains(&si) || pred.p1.blocked.contains(&si);
+                // over both phases of the invocation
+                let runs = pred.expected_runs(proj).iter().flatten().any(|s| s == sid);
+                let blocked = pred.p1.blocked.contains(&si) || pred.p2.as_ref().map(|(p2, pr)| p2.step_index(sid).map(|i| pr.blocked.contains(&i)).unwrap_or(false)).unwrap_or(false);
+                let needs_run = runs || blocked;
                 let got_err = matches!(&out.result, InvResult::Error(e) if e.contains("unknown pool"));
                 let in_closure = closure.contains(&si);
                 // Only decidable when nothing interferes: no faults and the step is reached.
                 if inv.faults.is_empty() && predicted_error.is_none() {
-                    if in_closure && pred.p1.run.contains(&si) && !got_err {
+                    if in_closure && runs && !got_err {
                         rep.violation("undeclared-pool-not-reported", &format!("step {} names an undeclared pool and needs to run, result {:?}", sid, out.result), case_json(case, proj, inv, Some(out)));
                     }
                     if got_err && !(in_closure && needs_run) {
